@@ -375,10 +375,93 @@ def check_tape(name, n, shots, us, pfp, pfn, fs):
     return out + [("@tape", "")]
 
 
+# ---- E. stochastic state-preparation errors: every pattern of bad atoms over the runs ---------------------------
+STOCH_NOISE = {
+    "spam": dict(state_prep_error=0.3),
+    "spam+dephasing": dict(state_prep_error=0.3, dephasing_rate=0.4),
+    "spam+relaxation": dict(state_prep_error=0.3, relaxation_rate=0.5),
+    "spam+depolarizing": dict(state_prep_error=0.3, depolarizing_rate=0.2),
+}
+
+
+def stoch_cases(tier):
+    out = []
+    for prog, natoms in (("rabi", 1), ("two-atoms", 2)):
+        for noise in STOCH_NOISE:
+            for runs in ((2, 3) if tier == "quick" else (2, 3, 4)):
+                if natoms * runs > (6 if tier == "quick" else 8):
+                    continue
+                for pattern in itertools.product((0, 1), repeat=natoms * runs):
+                    out.append(("stoch", prog, noise, runs, pattern))
+    return out
+
+
+class _Const:
+    def __init__(self, v):
+        self.v = v
+
+    def uniform(self, low=0.0, high=1.0, size=None):
+        return np.full(size if size is not None else (), self.v)
+
+
+def _run_v2_with_pattern(prog, noise, runs, pattern):
+    """Final density matrix stored by the V2 backend when the bad-atom draws follow `pattern` (1 = badly prepared)."""
+    import numpy.random as npr
+    from pulser.backend import StateResult
+    from pulser.noise_model import NoiseModel
+    from pulser_simulation import QutipBackendV2, QutipConfig
+
+    seq = build_prog(prog)
+    nm = NoiseModel(runs=runs, samples_per_run=1, **STOCH_NOISE[noise])
+    cfg = QutipConfig(observables=[StateResult()], noise_model=nm)
+    saved = npr.uniform
+    try:
+        npr.uniform = _Const(0.99).uniform  # construction-time draws: all atoms well prepared
+        backend = QutipBackendV2(seq, config=cfg)
+        tape = Tape([0.1 if b else 0.9 for b in pattern])  # eta = 0.3
+        npr.uniform = tape.uniform
+        res = backend.run()
+    finally:
+        npr.uniform = saved
+    if tape.pos != len(tape.values):
+        raise RuntimeError(f"tape not consumed: {tape.pos}/{len(tape.values)}")
+    st = res.get_result("state", 1.0).to_qobj()
+    return st.full() if st.isoper else np.outer(st.full().ravel(), st.full().ravel().conj())
+
+
+def check_stoch(prog, noise, runs, pattern):
+    natoms = len(pattern) // runs
+    out = []
+    try:
+        rho = _run_v2_with_pattern(prog, noise, runs, pattern)
+    except Exception as e:
+        return [(f"C11:stochastic-run-raises:{noise}:{type(e).__name__}", f"{prog} runs={runs} pattern={pattern}: {e}"[:200])]
+    tr = float(np.trace(rho).real)
+    configs = [tuple(pattern[i * natoms:(i + 1) * natoms]) for i in range(runs)]
+    distinct = len(set(configs))
+    tag = f"{noise}:{'repeated-configs' if distinct < runs else 'distinct-configs'}"
+    if abs(tr - 1) > 1e-5:
+        out.append((f"C11:trace-not-one:stochastic:{tag}", f"{prog} runs={runs} configs={configs}: trace {tr:.6f}"))
+    if np.abs(rho - rho.conj().T).max() > 1e-9:
+        out.append((f"C11:not-hermitian:stochastic:{tag}", f"{prog} {configs}"))
+    lam = float(np.linalg.eigvalsh((rho + rho.conj().T) / 2).min())
+    if lam < -1e-6:
+        out.append((f"C11:not-positive:stochastic:{tag}", f"{prog} {configs}: {lam}"))
+    # reference: repetition-weighted mixture of the single-configuration states
+    ref = np.zeros_like(rho)
+    for c in set(configs):
+        ref = ref + configs.count(c) / runs * _run_v2_with_pattern(prog, noise, runs, tuple(c) * runs)
+    if np.abs(ref - rho).max() > 2e-5:
+        out.append((f"C11:stochastic-mixture-differs:{tag}", f"{prog} runs={runs} configs={configs}: max diff {np.abs(ref - rho).max():.3g}"))
+    return out + [("@stoch", "")]
+
+
 def worker(case):
     with warnings.catch_warnings():
         warnings.simplefilter("ignore")
         k = case[0]
+        if k == "stoch":
+            return check_stoch(*case[1:])
         if k == "sweep":
             return sweep_case(case[1])
         if k == "phys":
@@ -394,7 +477,7 @@ def run(tier, seed):
     res = Result("exploration")
     nmax = 1500 if tier == "quick" else 12000
     cases = [("sweep", T) for T in range(4, nmax + 1)]
-    cases += phys_cases(tier) + conv_cases(tier) + tape_cases(tier)
+    cases += phys_cases(tier) + conv_cases(tier) + tape_cases(tier) + stoch_cases(tier)
     outs = gridx.run(worker, cases, chunksize=8)
     classes = {}
     for c, r in zip(cases, outs):
@@ -404,7 +487,7 @@ def run(tier, seed):
             else:
                 res.add(Violation(fp, d, {"engine": "emux", "case": repr(c)}))
     res.coverage = dict(
-        evaluations=len(cases), distinct_nontrivial=sum(classes.get(k, 0) for k in ("@sweep", "@phys", "@conv", "@tape")), exhaustive=True,
+        evaluations=len(cases), distinct_nontrivial=sum(classes.get(k, 0) for k in ("@sweep", "@phys", "@conv", "@tape", "@stoch")), exhaustive=True,
         outcome_classes=classes, durations_swept=[4, nmax],
         rule="(A) every integer duration 4..N of a resonant constant pulse on a clock-1 device: legacy emulator norm and analytic Rabi "
              "population, V2 backend returns and stores the same final state; (B) 8 programs (Rabi, idle, detuned, two atoms, digital, "
@@ -412,7 +495,8 @@ def run(tier, seed):
              "normalised / unit-trace Hermitian positive, ascending times, V2 == legacy at equal times; (C) every basis-state tuple of "
              "1-4 atoms in each of the 8 eigenbases and measurement bases, as ket and density matrix: documented bitstring through the "
              "legacy result and the V2 state; (D) every tape of numpy.random answers (interval interiors and end points) for 1-2 shots "
-             "on 4 distributions x 4 detection-error settings",
+             "on 4 distributions x 4 detection-error settings; (E) state-preparation errors with and without dissipation: every pattern "
+             "of badly prepared atoms over 2-3 runs (RNG tape), stored state physical and equal to the repetition-weighted mixture",
         samples=[repr(cases[i])[:160] for i in (0, len(cases) // 2, len(cases) - 1)])
     res.assumptions = ["solver accuracy: norms / traces 1e-5, positivity -1e-6, V2 vs legacy states 2e-4 (different evaluation grids change the adaptive steps); the analytic Rabi value is "
                        "required to lie in the range spanned by effective durations [T-1, T] (sample interpolation of the last, padded sample)", "randomness is owned by replacing "
